@@ -45,12 +45,18 @@ class AppRun:
                 self.ret = self.app.run_forever(**rf)
             except (sx.Control, sx.ConcreteFailure, sx.ReplayMismatch):
                 raise
+            except simnet.KernelBudget:
+                pass
             except BaseException as e:  # noqa
                 self.exc = e
         finally:
+            self.nonterm = self.k.budget_exceeded
             self.alive = [t.is_alive() for t in self.k.live_threads]
             self.k.shutdown()
             simnet.uninstall()
+        if self.nonterm:
+            sx.require(False, "run_forever does not come to an end (virtual-time kernel step budget exhausted)", steps=self.k.step_budget)
+            raise sx.Stop()
         return self
 
     def names(self):
